@@ -12,6 +12,7 @@
 use std::collections::BTreeSet;
 
 use hickory_proto::op::Message;
+use hickory_proto::rr::RecordData;
 use proptest::prelude::*;
 use serde::{Deserialize, Serialize};
 
@@ -256,7 +257,118 @@ fn name_offset_in_rdata(packet: &[u8], rr: &w::RawRr) -> Option<usize> {
     })
 }
 
+/// oracle (C) over raw bytes: whatever the decoder accepts must re-encode to something that decodes
+/// to the same message, with RDATA of non-compressible types byte-identical
+pub fn accepted_bytes_oracle(b0: &[u8], muts: &[Mutation], rec: &mut Rec) -> CaseResult {
+            let m1 = match Message::from_vec(b0) {
+                Ok(m) => m,
+                Err(_) => {
+                    rec.class("decoder-rejected");
+                    return Ok(());
+                }
+            };
+            rec.class("decoder-accepted");
+            // domain guard: a message whose uncompressed form exceeds 65,535 octets may legitimately come
+            // back truncated (hickory compresses at most 120 names per message)
+            let mut plain = 12usize;
+            for q in &m1.queries {
+                plain += q.name.len() + 1 + 4;
+            }
+            for r in m1.answers.iter().chain(&m1.authorities).chain(&m1.additionals) {
+                plain += r.name.len() + 1 + 10 + if r.data.is_update() { 0 } else { cu::rdata_plain(&r.data).map(|b| b.len()).unwrap_or(0) };
+            }
+            if plain > 60_000 {
+                rec.discard("over-64k-uncompressed");
+                return Ok(());
+            }
+            let b2 = match m1.to_vec() {
+                Ok(b) => b,
+                Err(e) => vfail!("decoded-message-does-not-encode", "to_vec(from_vec(b)) failed: {e}"),
+            };
+            let m2 = match Message::from_vec(&b2) {
+                Ok(m) => m,
+                Err(e) => vfail!("reencoded-message-does-not-decode", "from_vec(to_vec(from_vec(b))) failed: {e}"),
+            };
+            if let Err(e) = cu::message_deep_eq(&m1, &m2) {
+                vfail!("roundtrip-changed-message", "{e}");
+            }
+            // RDATA preservation, RR by RR, original packet vs re-encoded packet
+            let (Ok(s0), Ok(s2)) = (w::split(b0), w::split(&b2)) else {
+                rec.class("splitter-disagrees-with-decoder");
+                return Ok(());
+            };
+            let keep = |r: &&w::RawRr| r.rtype != w::T_OPT && r.rtype != w::T_TSIG;
+            let r0: Vec<&w::RawRr> = s0.records.iter().filter(keep).collect();
+            let r2: Vec<&w::RawRr> = s2.records.iter().filter(keep).collect();
+            vensure!(r0.len() == r2.len(), "reencoded-record-count", "{} records in, {} out", r0.len(), r2.len());
+            let mut compared = 0;
+            for (i, (a, b)) in r0.iter().zip(r2.iter()).enumerate() {
+                vensure!(
+                    a.owner == b.owner && a.rtype == b.rtype && a.class == b.class && a.ttl == b.ttl,
+                    "reencoded-record-fields-changed",
+                    "record {i}: {:?}/{}/{}/{} -> {:?}/{}/{}/{}",
+                    a.owner,
+                    a.rtype,
+                    a.class,
+                    a.ttl,
+                    b.owner,
+                    b.rtype,
+                    b.class,
+                    b.ttl
+                );
+                let (x, y) = (&b0[a.rdata_start..a.rdata_end], &b2[b.rdata_start..b.rdata_end]);
+                if w::compressible(a.rtype) {
+                    if let (Ok(dx), Ok(dy)) = (w::decompress_rdata(b0, a), w::decompress_rdata(&b2, b)) {
+                        vensure!(dx == dy, "compressible-rdata-changed", "record {i} type {}: {} -> {}", a.rtype, crate::core::hexser::to_hex(&dx), crate::core::hexser::to_hex(&dy));
+                        compared += 1;
+                    }
+                } else {
+                    // a non-compressible type that *arrived* with a pointer in an embedded name is compared
+                    // after decompression by deep equality only (documented normalisation)
+                    let had_pointer = name_offset_in_rdata(b0, a).is_some_and(|off| off < a.rdata_end && w::name_has_pointer(b0, off, a.rdata_end));
+                    if had_pointer {
+                        rec.class("noncompressible-rdata-arrived-with-pointer");
+                        continue;
+                    }
+                    vensure!(
+                        x == y,
+                        "noncompressible-rdata-not-preserved",
+                        "record {i} type {}: {} -> {}",
+                        a.rtype,
+                        crate::core::hexser::to_hex(x),
+                        crate::core::hexser::to_hex(y)
+                    );
+                    compared += 1;
+                }
+            }
+            rec.count("rdata_compared", compared);
+            if compared >= 1 {
+                rec.nontrivial();
+                if rec.wants_note() {
+                    rec.note(format!("{} records, mutations {:?}, accepted; {} RDATA compared", r0.len(), muts, compared));
+                }
+            }
+            Ok(())
+}
+
+pub fn fuzz_one(data: &[u8]) -> CaseResult {
+    let mut rec = Rec::default();
+    accepted_bytes_oracle(data, &[], &mut rec)
+}
+
+fn fuzz_seeds() -> Vec<Vec<u8>> {
+    Vec::new()
+}
+
 pub fn check() -> Option<Check> {
+    let fuzz: Box<dyn crate::core::Sub> = Box::new(crate::core::FuzzSub {
+        name: "fz_roundtrip",
+        target: "fz_roundtrip",
+        runs_thorough: 6_000_000,
+        max_len: 16_384,
+        oracle: fuzz_one,
+        seeds: fuzz_seeds,
+    });
     // ------------------------------------------------------------------------------------ (A)
     let constructed = prop(
         "constructed_roundtrip",
@@ -385,82 +497,7 @@ pub fn check() -> Option<Check> {
             for mu in &c.muts {
                 cu::apply_mutation(&mut b0, mu);
             }
-            let m1 = match Message::from_vec(&b0) {
-                Ok(m) => m,
-                Err(_) => {
-                    rec.class("decoder-rejected");
-                    return Ok(());
-                }
-            };
-            rec.class("decoder-accepted");
-            let b2 = match m1.to_vec() {
-                Ok(b) => b,
-                Err(e) => vfail!("decoded-message-does-not-encode", "to_vec(from_vec(b)) failed: {e}"),
-            };
-            let m2 = match Message::from_vec(&b2) {
-                Ok(m) => m,
-                Err(e) => vfail!("reencoded-message-does-not-decode", "from_vec(to_vec(from_vec(b))) failed: {e}"),
-            };
-            if let Err(e) = cu::message_deep_eq(&m1, &m2) {
-                vfail!("roundtrip-changed-message", "{e}");
-            }
-            // RDATA preservation, RR by RR, original packet vs re-encoded packet
-            let (Ok(s0), Ok(s2)) = (w::split(&b0), w::split(&b2)) else {
-                rec.class("splitter-disagrees-with-decoder");
-                return Ok(());
-            };
-            let keep = |r: &&w::RawRr| r.rtype != w::T_OPT && r.rtype != w::T_TSIG;
-            let r0: Vec<&w::RawRr> = s0.records.iter().filter(keep).collect();
-            let r2: Vec<&w::RawRr> = s2.records.iter().filter(keep).collect();
-            vensure!(r0.len() == r2.len(), "reencoded-record-count", "{} records in, {} out", r0.len(), r2.len());
-            let mut compared = 0;
-            for (i, (a, b)) in r0.iter().zip(r2.iter()).enumerate() {
-                vensure!(
-                    a.owner == b.owner && a.rtype == b.rtype && a.class == b.class && a.ttl == b.ttl,
-                    "reencoded-record-fields-changed",
-                    "record {i}: {:?}/{}/{}/{} -> {:?}/{}/{}/{}",
-                    a.owner,
-                    a.rtype,
-                    a.class,
-                    a.ttl,
-                    b.owner,
-                    b.rtype,
-                    b.class,
-                    b.ttl
-                );
-                let (x, y) = (&b0[a.rdata_start..a.rdata_end], &b2[b.rdata_start..b.rdata_end]);
-                if w::compressible(a.rtype) {
-                    if let (Ok(dx), Ok(dy)) = (w::decompress_rdata(&b0, a), w::decompress_rdata(&b2, b)) {
-                        vensure!(dx == dy, "compressible-rdata-changed", "record {i} type {}: {} -> {}", a.rtype, crate::core::hexser::to_hex(&dx), crate::core::hexser::to_hex(&dy));
-                        compared += 1;
-                    }
-                } else {
-                    // a non-compressible type that *arrived* with a pointer in an embedded name is compared
-                    // after decompression by deep equality only (documented normalisation)
-                    let had_pointer = name_offset_in_rdata(&b0, a).is_some_and(|off| off < a.rdata_end && w::name_has_pointer(&b0, off, a.rdata_end));
-                    if had_pointer {
-                        rec.class("noncompressible-rdata-arrived-with-pointer");
-                        continue;
-                    }
-                    vensure!(
-                        x == y,
-                        "noncompressible-rdata-not-preserved",
-                        "record {i} type {}: {} -> {}",
-                        a.rtype,
-                        crate::core::hexser::to_hex(x),
-                        crate::core::hexser::to_hex(y)
-                    );
-                    compared += 1;
-                }
-            }
-            rec.count("rdata_compared", compared);
-            if compared >= 1 {
-                rec.nontrivial();
-                if rec.wants_note() {
-                    rec.note(format!("{} records, mutations {:?}, accepted; {} RDATA compared", r0.len(), c.muts, compared));
-                }
-            }
-            Ok(())
+            accepted_bytes_oracle(&b0, &c.muts, rec)
         },
     );
 
@@ -534,6 +571,6 @@ pub fn check() -> Option<Check> {
             "one EDNS option per option code in the exact-round-trip domain",
             "the header Z bit is not modelled by hickory and is generated as 0",
         ],
-        subs: vec![constructed, constructed_large, wire, mutated, record_rt],
+        subs: vec![constructed, constructed_large, wire, mutated, record_rt, fuzz],
     })
 }
